@@ -13,7 +13,9 @@ def cfg(n, edges, outcomes, workers, init=None, cyclic=False, calls=1, second=No
         out['cyclic'] = True
     if calls > 1:
         out['calls'] = calls
-    if second is not None:
+    if second == 'same':
+        out['second'] = {'edges': [list(e) for e in edges], 'same_objects': True}   # a second Scheduler built from the SAME graph objects
+    elif second is not None:
         out['second'] = {'edges': [list(e) for e in second]}       # second schedule() on the same backend: other graph, fresh Env
     if nest is not None:
         out['nest'] = {'members': list(nest[0]), 'first': bool(nest[1])}   # tasks inside a DepGraph used as a node of the hard graph
